@@ -55,6 +55,18 @@ def install_print_hooks(I):
         return UNIT
     I.hooks[(None, None, 'print_sized_line')] = sized_line
 
+    def io_print(I2, fr, a, ck):
+        from mirsym import models as MM
+        text = MM.m_format(I2, fr, a, ck)
+        if isinstance(text, Str) and isinstance(text.s, str):
+            text = 'LINE:' + text.s          # a python str: lines that differ keep their paths apart instead of merging
+        log = fr.mem.get(STDOUT, Seq(()))
+        m = dict(fr.mem)
+        m[STDOUT] = Seq(log.items + (text,))
+        fr.mem = m
+        return UNIT
+    I.models.table[('io', None, '_print')] = io_print
+
 
 def entry_matches(entry, s):
     """TruthTableEntry value (True=0, False=1, Any=2) admits the Boolean s"""
@@ -132,6 +144,120 @@ def unit_print_table(k, opts):
     res['sample'] = dict(unit='print_truth_table_recursive k=%d' % k, diagram='canonical diagram of an unknown truth table', filter='unknown (True/False/Any)',
                          print_outcomes=len(rets), obligations=[q['name'] for q in res['queries']])
     return res
+
+
+def unit_print_vars(k, opts):
+    """rsbdd -v: print_true_vars_recursive lists exactly the satisfying rows (names listed = True, name* = either,
+    absent = False)"""
+    I = load('rsbdd')
+    if opts.get('mutate'):
+        apply_mir_mutation(I, opts['mutate'])
+    w = world_for(k)
+    env, mem = table_env(I)
+    install_summaries(I, w, evalcore.ALL_CONTRACTS)
+    pfs = real_constructor(I, w, env, mem, all_free_tree(k))
+    g0, pf, mem = pfs[0]
+    install_print_hooks(I)
+    TT = w.tt('f')
+    root = w.canon(TT)
+    any_ = mk('TruthTableEntry', 2, [])
+    names = ['v%d' % i for i in range(k)]
+    headers = Seq([Str(n) for n in names] + [Str('*')])
+    mem = dict(mem)
+    mem[STDOUT] = Seq(())
+    it = I.by_key.get((None, None, 'print_true_vars_recursive'))
+    if it is None:
+        raise Unsupported('print_true_vars_recursive not found in the rsbdd binary')
+    outs = I.call_item(it, [mk_sref(root), Seq([any_] * k), mk_sref(headers), mk_sref(pf)], mem)
+    rets, pc, pm = outcome_split(outs)
+    sig = [z3.Bool('sg%d' % i) for i in range(k)]
+    val = False
+    for j, sg in enumerate(all_assignments(k)):
+        val = gor(val, gand(TT[j], *[(sig[i] if sg[i] else gnot(sig[i])) for i in range(k)]))
+    bad = False
+    garbled = False
+    for r in rets:
+        lines = r.mem[STDOUT].items
+        ms = []
+        for ln in lines:
+            if not isinstance(ln, str) or not ln.endswith(';\n'):
+                garbled = gor(garbled, r.guard)
+                continue
+            body = ln[5:-2]
+            items = [x.strip() for x in body.split(',') if x.strip()]
+            conds = []
+            for i, nm in enumerate(names):
+                if nm in items:
+                    conds.append(sig[i])
+                elif nm + '*' in items:
+                    pass
+                else:
+                    conds.append(gnot(sig[i]))
+            ms.append(gand(*conds))
+        atleast = gor(*ms) if ms else False
+        twice = gor(*[gand(ms[i], ms[j]) for i in range(len(ms)) for j in range(i + 1, len(ms))]) if len(ms) > 1 else False
+        bad = gor(bad, gand(r.guard, gor(twice, gnot(beq(atleast, val)))))
+    res = dict(queries=[], method=None, outcomes=len(rets))
+    cex = None
+
+    def case(model):
+        model = model or {}
+        tt = ''.join('1' if model.get('f_%d' % j) else '0' for j in range(1 << k))
+        return dict(kind='vars', k=k, ids=concrete_ids(model, w), tt=tt)
+    for name, neg in (('-v printing does not panic', pc), ('every printed line has the documented shape', garbled),
+                      ('-v lists exactly the satisfying assignments, each covered by exactly one line', bad)):
+        q = decide(name, list(w.constraints), neg, timeout_s=opts.get('timeout', 250))
+        q['expect'] = 'unsat'
+        m = q.pop('model', None)
+        res['queries'].append(q)
+        if q['result'] == 'sat' and cex is None:
+            cex = dict(obligation=name, case=case(m))
+        elif q['result'] not in ('sat', 'unsat'):
+            res['status'] = 'inconclusive'
+            res['error'] = 'solver: ' + q['result']
+    res.update(interp_summary(I))
+    res['cex'] = cex
+    res['sample'] = dict(unit='print_true_vars_recursive k=%d' % k, diagram='canonical diagram of an unknown truth table', print_outcomes=len(rets), obligations=[q['name'] for q in res['queries']])
+    return res
+
+
+def judge_vars(case):
+    import tempfile, os
+    k = case['k']
+    names = ['v%d' % i for i in range(k)]
+    ids = compress_ids(case['ids'])
+    text = dnf_text(case['tt'], names)
+    d = tempfile.mkdtemp(dir=tmpdir())
+    of = os.path.join(d, 'order.txt')
+    open(of, 'w').write(ordering_text(names, ids))
+    rc, out, err = run_rsbdd(['-e', text, '-v', '-o', of])
+    case['cli'] = dict(args=['-e', text, '-v', '-o', ordering_text(names, ids)], rc=rc, stdout=(out or '')[-800:], stderr=(err or '')[-300:])
+    if rc is None:
+        return None, 'timeout'
+    if rc != 0:
+        return ('panicked' in err), 'rsbdd exited %s: %s' % (rc, err[-160:])
+    lines = [l for l in out.split('\n') if l.endswith(';')]
+    tt = [c == '1' for c in case['tt']]
+    # free variables = the ones mentioned in the DNF text
+    for j in range(1 << k):
+        sg = [bool((j >> (k - 1 - i)) & 1) for i in range(k)]
+        cover = 0
+        for l in lines:
+            items = [x.strip() for x in l[:-1].split(',') if x.strip()]
+            ok = True
+            for i, nm in enumerate(names):
+                if nm not in text:
+                    continue
+                if nm in items:
+                    ok = ok and sg[i]
+                elif nm + '*' in items:
+                    pass
+                else:
+                    ok = ok and not sg[i]
+            cover += 1 if ok else 0
+        if cover != (1 if tt[j] else 0):
+            return True, 'assignment %s (value %s) is covered by %d lines of -v output %s' % (dict(zip(names, sg)), tt[j], cover, lines)
+    return False, 'agrees'
 
 
 def unit_free_index(shape, k, opts):
@@ -221,6 +347,8 @@ def jobs(quick):
     js = []
     for k in ((1, 2, 3) if quick else (1, 2, 3, 4)):
         js.append(('print_truth_table_recursive k=%d' % k, unit_print_table, (k, {})))
+    for k in (1, 2):
+        js.append(('print_true_vars_recursive (-v) k=%d' % k, unit_print_vars, (k, {})))
     for sh in [('bin', 'L', 'L'), ('q', 1, ('bin', 'L', 'L')), ('cc', ('L', 'L', 'L')), ('fp', ('bin', 'L', 'L'))]:
         js.append(('to_free_index %r k=3' % (sh,), unit_free_index, (sh, 3, {})))
     js.append(('TruthTableEntry::from_str', unit_from_str, ({},)))
@@ -346,6 +474,16 @@ def replay_print(rep, pid, name, cex):
             print('CONFIRMED table %s filter %s: %s' % (case['tt'], case['filter'], desc))
         else:
             rep.inconclusive.append('%s: table counterexample did not reproduce (%s)' % (name, desc))
+        return
+    if case['kind'] == 'vars':
+        v, desc = judge_vars(case)
+        case.update(obligation=cex['obligation'], unit=name)
+        path = save_replay(pid, case)
+        if v:
+            rep.violations.append(('print:vars:%s' % ('panic' if 'panicked' in desc else 'wrong'), 'rsbdd -e %r -v: %s' % (case['cli']['args'][1], desc), path))
+            print('CONFIRMED -v %s: %s' % (case['tt'], desc))
+        else:
+            rep.inconclusive.append('%s: -v counterexample did not reproduce (%s)' % (name, desc))
         return
     if case['kind'] == 'freeindex':
         # through the CLI: the formula with an ordering file that reproduces the relative order and the gaps of the ids
